@@ -166,6 +166,7 @@ def run(seed, tier, extra_cases=None, use_cache=True):
                 "protocall": (".call(" in st["cases"][rid]["code"]) or (".apply(" in st["cases"][rid]["code"]),
                 "spreadthis": bool(re.search(r"\.(?:call|apply)\(\s*\.\.\.", st["cases"][rid]["code"])),
                 "primfault": any(k.startswith("prim:") and (v or {}).get("k") == "throw" for k, v in resp.items()),
+                "swallow": bool(re.search(r"\b(?:catch|finally|async)\b", st["cases"][rid]["code"])),
                 "reenter": any((v or {}).get("k") == "reenter" for v in resp.values()),
                 "absent": mode == "a", "ns_exists": bool(dd.get("exists")), "ns_keys": [str(x) for x in dd.get("keys", [])],
                 "ns_preserved": bool(dd.get("preserved", mode == "a")),
